@@ -810,3 +810,52 @@ TWINS["C07"] = [
     TW("obs-guard-positive",
        (TPO, "                    if p == 0.:\n                        continue\n                    obs[ai, nsi, ooi[o]] = p", "                    if p > 0:\n                        obs[ai, nsi, ooi[o]] = p")),
 ]
+
+# ----------------------------------------------------------------------------------- C08
+PB = A + "pointbasedvalueiteration.py"
+AVP = C + "pomdp/alphavectorpolicy.py"
+QMD = A + "qmdp.py"
+MUTANTS["C08"] = [
+    M("mask-on-successor-axis", ["TEN-3"],
+      (PB, "tf = tf*nt[:, None, None] #terminal states transition nowhere", "tf = tf*nt[None, None, :] #terminal states transition nowhere")),
+    M("transition-mask-dropped", ["BEL-1"],
+      (PB, "    tf = tf*nt[:, None, None] #terminal states transition nowhere\n", "")),
+    M("reward-mask-dropped", ["BEL-1"],
+      (PB, "    sa_rf = sa_rf*nt[:,None] #reward at terminal state is 0\n", "")),
+    M("mask-not-negated", ["BEL-1", "TEN-3"],
+      (PB, "nt = ~pomdp.absorbing_state_vec.astype(bool)", "nt = pomdp.absorbing_state_vec.astype(bool)")),
+    M("no-discount", ["BEL-2"],
+      (PB, "bsa_vf = sa_rf[None, :, :] + pomdp.discount_rate * bsa_fut_vf", "bsa_vf = sa_rf[None, :, :] + bsa_fut_vf")),
+    M("discount-on-everything", ["BEL-2"],
+      (PB, "bsa_vf = sa_rf[None, :, :] + pomdp.discount_rate * bsa_fut_vf", "bsa_vf = pomdp.discount_rate * (sa_rf[None, :, :] + bsa_fut_vf)")),
+    M("einsum-obs-axes-swapped", ["TEN-1"],
+      (PB, 'aops_fut_vf = np.einsum("san,ano,pn->aops", tf, of, bv)', 'aops_fut_vf = np.einsum("san,aon,pn->aops", tf, of, bv)')),
+    M("einsum-belief-on-action", ["TEN-1"],
+      (PB, 'ba_vf = np.einsum("bsa,bs->ba", bsa_vf, bb)', 'ba_vf = np.einsum("bsa,ba->bs", bsa_vf, bb)')),
+    M("argmax-over-beliefs", ["SEL-1"],
+      (PB, "ba_vf_max_idx = ba_vf.argmax(axis=1)", "ba_vf_max_idx = ba_vf.argmax(axis=0)")),
+    M("stop-rule-dropped", ["STOP-1"],
+      (PB, "        if delta < value_convergence_epsilon:\n            break\n", "")),
+    M("policy-from-stale-vectors", ["WIRE-1"],
+      (PB, "pi = AlphaVectorPolicy(pomdp, res['alpha_vectors'])", "pi = AlphaVectorPolicy(pomdp, res['belief_action_alpha_vectors'][:, :, 0])")),
+    M("threshold-not-forwarded", ["WIRE-1"],
+      (PB, "                value_convergence_epsilon=self.value_convergence_epsilon,\n                horizon=self.horizon", "                value_convergence_epsilon=.01,\n                horizon=self.horizon")),
+    M("lookahead-no-discount", ["LA-1"],
+      (AVP, "ns_v = self.pomdp.discount_rate * self.value(ns_dist)", "ns_v = self.value(ns_dist)")),
+    M("lookahead-wrong-posterior", ["LA-1"],
+      (AVP, "ns_dist = self.pomdp.state_estimator(s_dist, a, o)", "ns_dist = self.pomdp.state_estimator(s_dist, o, a)")),
+    M("lookahead-reward-unweighted", ["LA-1"],
+      (AVP, "aval += r*s_prob*ns_prob", "aval += r*ns_prob")),
+    M("qmdp-unweighted", ["QMDP-1"],
+      (QMD, "aval += self.sa_values[s][a]*prob", "aval += self.sa_values[s][a]")),
+    M("qmdp-state-values", ["QMDP-1"],
+      (QMD, "sa_values = mdp_res.action_value", "sa_values = mdp_res.state_value")),
+]
+TWINS["C08"] = [
+    TW("mask-via-newaxis",
+       (PB, "tf = tf*nt[:, None, None] #terminal states transition nowhere", "tf = nt[:, np.newaxis, np.newaxis]*tf")),
+    TW("letters-renamed",
+       (PB, '"san,ano,pn->aops"', '"xay,ayz,py->azpx"')),
+    TW("discount-commuted",
+       (PB, "bsa_vf = sa_rf[None, :, :] + pomdp.discount_rate * bsa_fut_vf", "bsa_vf = bsa_fut_vf * pomdp.discount_rate + sa_rf[None, :, :]")),
+]
